@@ -790,9 +790,15 @@ class XlsxRowWriter(AbstractRowWriter):
             if isinstance(item, str):
                 # Write strings as explicit strings to prevent strings starting with '=' from being converted to
                 # formulas.
-                self.worksheet.write_string(row_index, column_index, item)
+                error_code = self.worksheet.write_string(row_index, column_index, item)
             else:
-                self.worksheet.write(row_index, column_index, item)
+                error_code = self.worksheet.write(row_index, column_index, item)
+            if (error_code is not None) and (error_code < 0):
+                # For example -1 for a cell outside of the sheet or -2 for a text that has too many characters.
+                raise errors.DataFormatError(
+                    "cannot write item to Excel sheet (error code %d): %s" % (error_code, _compat.text_repr(item)),
+                    self.location,
+                )
             self.location.advance_cell()
         self.location.advance_line()
 
